@@ -3,7 +3,6 @@ package guards
 import (
 	"go/types"
 	"sort"
-	"strings"
 
 	"golang.org/x/tools/go/ssa"
 )
@@ -13,57 +12,52 @@ import (
 // by go/ssa (functions) or "(pkg.Iface).Method" (interface methods without an analysed callee); a key ending
 // in ".*" covers a whole package. Each entry carries the reason.
 var TrustedTotal = map[string]string{
+	// error construction and logging
 	"errors.New":                   "allocates an error value",
-	"fmt.Errorf":                   "formatting; operands' String/Error methods assumed total (A3)",
+	"fmt.Errorf":                   "formatting; String/Error methods of operands assumed total (A3)",
 	"fmt.Sprintf":                  "formatting (A3)",
-	"fmt.Sprint":                   "formatting (A3)",
 	"log.Printf":                   "formatting to the standard logger (A3)",
-	"log.Println":                  "formatting to the standard logger (A3)",
-	"github.com/pkg/errors.*":      "error wrapping helpers: allocate, never index",
-	"encoding/hex.DecodeString":    "returns ErrLength / InvalidByteError for malformed text",
-	"encoding/hex.EncodeToString":  "total",
-	"encoding/hex.DecodedLen":      "total",
-	"encoding/hex.EncodedLen":      "total",
-	"encoding/hex.Encode":          "destination sized by EncodedLen at every call site (checked as intrinsic)",
+	"github.com/pkg/errors.Wrap":   "wraps an error, allocates only",
+	"github.com/pkg/errors.Wrapf":  "wraps an error, allocates only",
+	"github.com/pkg/errors.New":    "allocates an error value",
+	"github.com/pkg/errors.Errorf": "allocates an error value",
+	// text decoders: malformed input is reported through the error result
+	"encoding/hex.DecodeString":                  "returns ErrLength / InvalidByteError for malformed text",
+	"encoding/hex.EncodeToString":                "total",
 	"(*encoding/base64.Encoding).DecodeString":   "returns CorruptInputError for malformed text",
 	"(*encoding/base64.Encoding).EncodeToString": "total",
-	"(*encoding/base64.Encoding).Decode":         "destination sized by DecodedLen (checked as intrinsic)",
-	"(*encoding/base64.Encoding).DecodedLen":     "total",
-	"(*encoding/base64.Encoding).EncodedLen":     "total",
-	"(*encoding/base64.Encoding).Encode":         "destination sized by EncodedLen (checked as intrinsic)",
-	"strconv.*":                    "parsers return *NumError; formatters are total",
-	"strings.*":                    "no index arguments used by the module (Trim/Split/Replace/ToLower/HasPrefix/…)",
-	"bytes.Equal":                  "total",
-	"bytes.Compare":                "total",
-	"time.Parse":                   "returns *ParseError",
-	"time.*":                       "time arithmetic and formatting are total",
-	"(time.Time).*":                "time arithmetic and formatting are total",
-	"(time.Duration).*":            "total",
-	"math.*":                       "floating point, no panics",
-	"math/bits.*":                  "total for the shapes used (no Div)",
-	"encoding/json.Unmarshal":      "returns SyntaxError/UnmarshalTypeError; custom unmarshalers are roots themselves",
-	"encoding/json.Marshal":        "returns error",
-	"crypto/aes.NewCipher":         "returns KeySizeError instead of panicking",
-	"github.com/jacobsa/crypto/cmac.New": "returns error for a bad key length",
-	"(crypto/cipher.Block).BlockSize": "constant of the cipher",
-	"(hash.Hash).Write":            "hash.Hash.Write never returns an error and accepts any length",
-	"(hash.Hash).Sum":              "appends to its argument",
-	"(hash.Hash).Reset":            "total",
-	"(io.Writer).Write":            "hash/buffer writers accept any length",
-	"encoding/binary.Write":        "returns error for unsupported types",
-	"encoding/binary.Read":         "returns io.ErrUnexpectedEOF on short input",
-	"(*bytes.Buffer).*":            "growing buffer; Write/Bytes/Len are total",
-	"bytes.NewBuffer":              "total",
-	"bytes.NewReader":              "total",
-	"(*bytes.Reader).*":            "returns io.EOF on short input",
-	"(*sync.Mutex).*":              "lock operations (Unlock of a locked mutex)",
-	"(*sync.RWMutex).*":            "lock operations",
-	"(error).Error":                "error values produced by the module and the standard library",
-	"sort.*":                       "comparison sorts over module-provided Less functions",
-	"(reflect.Type).*":             "not reached with invalid kinds",
-	"unicode/utf8.*":               "total",
-	"database/sql/driver.*":        "interfaces only",
-	"(*encoding/binary.littleEndian).*": "see intrinsics",
+	"strconv.ParseFloat":                         "returns *NumError",
+	"strconv.ParseInt":                           "returns *NumError",
+	"strconv.ParseUint":                          "returns *NumError",
+	"strconv.Atoi":                               "returns *NumError",
+	"strconv.Itoa":                               "total",
+	"strconv.FormatInt":                          "total for base 10/16 used here",
+	"strconv.FormatFloat":                        "total",
+	"strings.TrimPrefix":                         "total",
+	"strings.TrimSuffix":                         "total",
+	"strings.TrimSpace":                          "total",
+	"strings.ToLower":                            "total",
+	"strings.ToUpper":                            "total",
+	"strings.HasPrefix":                          "total",
+	"strings.Split":                              "total",
+	"time.Parse":                                 "returns *ParseError",
+	"math.Round":                                 "floating point, no panic",
+	"encoding/json.Unmarshal":                    "returns SyntaxError/UnmarshalTypeError; custom unmarshalers of the module are roots themselves",
+	"bytes.Equal":                                "total",
+	// crypto constructors: bad key sizes are errors
+	"crypto/aes.NewCipher":               "returns KeySizeError instead of panicking",
+	"github.com/jacobsa/crypto/cmac.New": "returns an error for a bad key length",
+	"(crypto/cipher.Block).BlockSize":    "constant of the cipher",
+	"(hash.Hash).Write":                  "never fails, accepts any length",
+	"(hash.Hash).Sum":                    "appends to its argument",
+	// locks
+	"(*sync.RWMutex).RLock":   "lock operation",
+	"(*sync.RWMutex).RUnlock": "paired with RLock by defer",
+	"(*sync.RWMutex).Lock":    "lock operation",
+	"(*sync.RWMutex).Unlock":  "paired with Lock by defer",
+	"(*sync.Mutex).Lock":      "lock operation",
+	"(*sync.Mutex).Unlock":    "paired with Lock by defer",
+	"(error).Error":           "error values produced by the module and the standard library",
 }
 
 // intrinsic preconditions: callee name -> list of (argument index, minimal length).
@@ -91,16 +85,8 @@ var intrinsics = map[string][]lenReq{
 }
 
 func trustedReason(name string) (string, bool) {
-	if r, ok := TrustedTotal[name]; ok {
-		return r, true
-	}
-	// package / receiver wildcard
-	if i := strings.LastIndex(name, "."); i > 0 {
-		if r, ok := TrustedTotal[name[:i]+".*"]; ok {
-			return r, true
-		}
-	}
-	return "", false
+	r, ok := TrustedTotal[name]
+	return r, ok
 }
 
 // ExternSeen collects the extern callees met while enumerating obligations: name -> classification.
